@@ -295,7 +295,7 @@ func (e *Exec) scanCallMods(fn *ssa.Function, c *ssa.CallCommon, ms *modSet, see
 
 func isIntrinsic(nm string) bool {
 	switch nm {
-	case "specAssert", "specAssume", "vcForall", "vcExists", "vcTrigger1", "vcTrigger2", "vcTrigger3", "vcOldBegin", "vcOld", "vcMod1", "vcModElems", "vcModMap", "vcFresh", "vcByteStr", "vcModGhost", "vcModGhostAll", "vcSameSlice", "vcElemsOf", "vcOff", "vcSeqAt", "vcIte", "vcMapSeq", "vcHas", "vcIn", "vcSameMap":
+	case "specAssert", "specAssume", "vcForall", "vcExists", "vcTrigger1", "vcTrigger2", "vcTrigger3", "vcOldBegin", "vcOld", "vcMod1", "vcModElems", "vcModMap", "vcFresh", "vcByteStr", "vcModGhost", "vcModGhostAll", "vcSameSlice", "vcElemsOf", "vcOff", "vcSeqAt", "vcIte", "vcMapSeq", "vcHas", "vcIn", "vcSameMap", "vcTokBytes", "vcTokStr", "vcTokCat", "vcTokEmpty":
 		return true
 	}
 	return false
